@@ -59,7 +59,8 @@ let oracle_c14 (line : string) : string =
   let ds = ref drag_init in
   let raws = ref (List.filter_map (function Mouse (t, b, l, cc) -> Some (t, b, l, cc) | _ -> None) cs.items) in
   let bad = ref None in
-  let compare_logs k t expected observed =
+  let fired : int list ref = ref [] in
+  let compare_logs cls k t expected observed =
     if cs.mus = [] then begin
       if not (ievs_eqb expected observed) then
         bad := Some (Printf.sprintf "record %d: delivered %s, the property's order gives %s" k (pr_ievs observed) (pr_ievs expected))
@@ -71,6 +72,18 @@ let oracle_c14 (line : string) : string =
       let self_only = List.for_all (fun (id, (_, _, tgt)) -> id = tgt) cs.mus in
       (* a closed window that claims events: in the unmutated order it would have ended the offers, so
          what the windows after it get cannot be read off that order (the model correspondence covers it) *)
+      (* nothing more to a closed subtree that the closing window is not part of *)
+      List.iter (fun (w, (mcls, _, tgt)) ->
+          let got = List.exists (fun e -> iz (iev_win e) = w) observed in
+          if mcls <> cls || List.mem w !fired || not got then () else begin
+          fired := w :: !fired;
+          match t_find (zi tgt) t with
+          | Some sub ->
+            let cl = subtree_ids sub in
+            if not (List.exists (fun x -> iz x = w) cl) && not (c14_closed_silent_checkb (zi w) cl observed) then
+              bad := Some (Printf.sprintf "record %d: a window closed by window %d's handler was still given the event: %s" k w (pr_ievs observed))
+          | None -> () end) cs.mus;
+      if !bad <> None then () else
       let closed_claims = List.exists (fun w -> iz (claims w) <> 0) closed in
       if closed_claims then () else
       if not (if self_only then c14_rest_checkb closed expected observed
@@ -81,11 +94,18 @@ let oracle_c14 (line : string) : string =
       if !bad = None then
         if r.kind = "K" then begin
           let t = parse_tree (field r "T") in
-          compare_logs k t (key_spec claims t) (parse_ievs (field r "L"))
+          compare_logs 0 k t (key_spec claims t) (parse_ievs (field r "L"))
         end else if r.kind = "SH" then begin
           (* the focus chain keys are routed along: show re-links only a parent without a focused child *)
           if not (c15_show_checkb (zi (int_of_string (field r "W"))) (parse_tree (field r "U")) (parse_tree (field r "T"))) then
             bad := Some (Printf.sprintf "record %d: show changed the focus chain: the shown window is offered keys before the window that took the focus meanwhile (or is left off the chain)" k)
+        end else if r.kind = "HI" then begin
+          if not (c15_hide_checkb (zi (int_of_string (field r "W"))) (parse_tree (field r "U")) (parse_tree (field r "T"))) then
+            bad := Some (Printf.sprintf "record %d: hide left a hidden window on the focus chain keys are routed along (or changed another link)" k)
+        end else if r.kind = "F" then begin
+          (* a flush (which applies the queued restacks) changes no focus link: keys keep going along the chain first *)
+          if not (c15_links_kept_checkb (parse_tree (field r "U")) (parse_tree (field r "T"))) then
+            bad := Some (Printf.sprintf "record %d: the flush changed a focus link or a focused flag: keys no longer go along the focus chain first" k)
         end else if r.kind = "MS" then begin
           let t = parse_tree (field r "T") in
           match !raws with
@@ -95,7 +115,7 @@ let oracle_c14 (line : string) : string =
             let ty = if ty >= 1 && ty <= 4 then ty else 1 in
             let (expected, ds') = mouse_spec claims t !ds (zi ty) (zi b) (zi l) (zi cc) in
             ds := ds';
-            compare_logs k t expected (parse_ievs (field r "L"))
+            compare_logs 1 k t expected (parse_ievs (field r "L"))
         end) recs;
   match !bad with None -> "OK" | Some m -> "BAD " ^ m
 
